@@ -14,6 +14,10 @@ NA = {
 PENDING = "check not built yet in this session (work in progress; see DESIGN.md §4 for the planned rules)"
 
 CHECKS = {
+    "C08": dict(
+        technique="interprocedural information-flow (security-type / taint) analysis over LLVM IR, source-shaped and -O3, with vtable-resolved calls and def-use witnesses",
+        text="Every function of the library is typed with public/secret levels: all memory is secret except an explicit table of public fields (rounds, offset, parallel_size, pointer fields), constant tables and locals that only receive public values. No conditional branch, switch, select, load/store address, vector lane index, indirect callee, memcpy/memset/calloc length, div/rem operand or returned status depends on a secret, and no secret is stored into a public field - in the source-shaped IR and in the IR at the shipped optimisation level (and in all 32 switch configurations in the thorough tier). This is a proof-style argument over all secret values at once; tests observe bytes only and cannot see timing.",
+        note="Trusted: clang 14 front end/mem2reg/-O3, bin/irfacts, the public-field table (audited list of what was treated as public is written to the evidence). IR-level: back-end lowering of straight-line IR is trusted, gcc's optimiser is not inspected; x86 shifts/multiplies assumed constant-time."),
     "C13": dict(
         technique="CFG path enumeration of the init cascades over probe outcomes + dataflow from CPUID/XGETBV inline-asm outputs to the probe result checked against the architecture manual + mnemonic scan of the objects the repo's Makefile builds",
         text="For every outcome of the CPU probes, each of the six init functions stores a table whose vector width does not exceed what the probes reported and is the widest compiled-in candidate (widths and byte extents are computed from the back ends' IR, not from names); the AVX2 probe binds sub-leaf 0, tests the maximum leaf and the OS-enabled YMM state on every positive path; stubbed tables imply constant-0 probes and compiled-in tables a probe that can report their width; VEX/EVEX encodings appear only in objects reachable solely through AVX2-gated tables; probes are stateless with constant asm inputs; parallel_size equals the extent the selected back end processes. Decides selection for all calling contexts and CPU models, which the suite never inspects.",
